@@ -590,4 +590,16 @@ Section Tie.
 
   Theorem src_reset_is fuel p : src_reset fuel p = reset fuel p.
   Proof. destruct fuel as [|f]; [reflexivity|]. destruct p; try reflexivity. destruct o; reflexivity. Qed.
+
+  (** the first n results of repeated next(), each call executed as the source defines it *)
+  Fixpoint src_outputs (fuel n : nat) (p : pat) : list (outcome val) * pat :=
+    match n with
+    | O => ([], p)
+    | S n' => let '(o, p') := src_step fuel p in let '(os, p'') := src_outputs fuel n' p' in (o :: os, p'')
+    end.
+  Theorem src_outputs_is fuel n : forall p, src_outputs fuel n p = outputs binop LMAX fuel n p.
+  Proof.
+    induction n as [|n IH]; intro p; [reflexivity|]. cbn [src_outputs outputs]. rewrite src_step_is.
+    destruct (step fuel p) as [o p']. rewrite IH. reflexivity.
+  Qed.
 End Tie.
